@@ -1642,7 +1642,7 @@ func (f *FuncCFG) expand(depth int, onStack map[*types.Func]bool) {
 					// a helper all of whose returns were classified): keep its region for paramArg
 					if inner := sub.regionOf[cb]; inner != nil {
 						root := inner
-						for root.parent != nil {
+						for root.parent != nil && root != reg {
 							root = root.parent
 						}
 						if root != reg {
@@ -1677,8 +1677,13 @@ func (f *FuncCFG) expand(depth int, onStack map[*types.Func]bool) {
 				}
 				if inner := sub.regionOf[cb]; inner != nil {
 					// a region of a nested expansion: hook its root under reg
+					// walk up to the top of the nested expansion - or to reg itself when an earlier block
+					// of this splice has hooked the chain already (reg can have a parent of its own)
 					root := inner
-					for root.parent != nil {
+					for steps := 0; root.parent != nil && root != reg; steps++ {
+						if steps > 64 {
+							panic("hivecheck: region parent cycle at " + f.P.posStr(call.Pos()) + " splicing " + fd.Name.Name)
+						}
 						root = root.parent
 					}
 					if root != reg {
